@@ -146,7 +146,7 @@ import string as _string_mod
 _SAFE_MODULES = {'re': _re_mod, 'string': _string_mod}
 
 
-_BUILTIN_CALLS = frozenset(('setattr', 'delattr', 'id', 'hash', 'repr', 'list', 'tuple', 'set', 'frozenset', 'callable', 'hasattr', 'ord', 'chr', 'bin', 'hex', 'oct', 'pow', 'print', 'iter', 'next'))
+_BUILTIN_CALLS = frozenset(('vars', 'setattr', 'delattr', 'id', 'hash', 'repr', 'list', 'tuple', 'set', 'frozenset', 'callable', 'hasattr', 'ord', 'chr', 'bin', 'hex', 'oct', 'pow', 'print', 'iter', 'next'))
 
 
 class GenList(list):
@@ -401,6 +401,9 @@ def ev(n, env, funcs=None):
         if isinstance(v, PyStub):
             if hasattr(v, n.attr):
                 return getattr(v, n.attr)
+            am_ = _mangled(n.attr, env)             # self.__x inside a repository method interpreted on an abstract object
+            if am_ != n.attr and hasattr(v, am_):
+                return getattr(v, am_)
             raise Unsupported('abstract object has no attribute %s' % n.attr)
         if n.attr == '__name__' and callable(v) and hasattr(v, '__name__'):
             return v.__name__
@@ -729,6 +732,8 @@ def ev(n, env, funcs=None):
                         return ctor([a0.call('__getitem__', i_) for i_ in range(a0.call('__len__'))])
                 elif isinstance(a0, (list, tuple, set, frozenset, range, str, dict)) or hasattr(a0, '__iter__'):
                     return ctor(a0)
+            if fname == 'vars' and len(args) == 1 and isinstance(args[0], Obj):
+                return args[0].fields               # the instance dictionary itself, in assignment order (as vars() gives __dict__)
             if fname == 'setattr' and len(args) == 3 and isinstance(args[1], str):
                 o_ = args[0]
                 if isinstance(o_, Obj):
